@@ -344,6 +344,9 @@ def scan_trusted(unit, name):
 # ---------------------------------------------------------------------------------------------
 # Kani
 
+KANI_EXTRACT_LOCK = threading.Lock()
+
+
 def kani_harness(pid, spec, repo, tier, out):
     """spec: dict(harness=..., bounded=None|str, desc=...)"""
     crate = os.path.join(VERIF, "kani")
@@ -392,6 +395,19 @@ def kani_harness(pid, spec, repo, tier, out):
 
 def prepare_kani_crate(repo):
     crate = os.path.join(VERIF, "kani")
+    # private functions cannot be reached through #[path]: their text is extracted mechanically (byte for byte, no rewrite
+    # rule) into src/extracted.rs on every run, followed by the harness text of the template
+    with KANI_EXTRACT_LOCK:
+        dst = os.path.join(crate, "src", "extracted.rs")
+        try:
+            import weave as _w
+            unit = _w.Weaver(repo).weave(os.path.join(crate, "extracted.tmpl.rs"))
+            text = unit.text
+        except Exception as e:      # lost anchor: no harness exists then, which the caller reports as undecided
+            text = "// extraction failed on this tree: %s\n" % str(e).replace("\n", " ")[:300]
+        old = open(dst).read() if os.path.exists(dst) else None
+        if old != text:
+            open(dst, "w").write(text)
     lock = os.path.join(repo, "Cargo.lock")
     if os.path.exists(lock):
         shutil.copyfile(lock, os.path.join(crate, "Cargo.lock"))
